@@ -12,6 +12,7 @@ import Mathlib.Tactic.Positivity
                            a triplet is returned iff its presence fraction exceeds `freq`
 * `c14_wn_within_cutoff`   the Wernet–Nilsson cone lies inside the 0.33 nm prefilter
 * `c14_store_best_two`     `store_energies` keeps, for every sequence of candidates, the two lowest energies (slot 0 ≤ slot 1 ≤ all others)
+* `c14_ks_frame_best_two`, `c14_ks_frame_proline`   the slots of a donor in a frame are the two lowest qualifying energies among the evaluated candidates; prolines never donate
 * `c14_candidates_spec`    which (donor, acceptor) residue pairs the kernel evaluates: both complete, C-alphas close, donor i+1 → acceptor i excluded
 -/
 namespace MdVerif.Hb
@@ -276,6 +277,27 @@ theorem c14_store_best_two (l : List (Nat × Rat)) : Best2 (l.foldl (fun st c =>
     intro pre st h
     have := ih (pre ++ [c]) (store st c.1 c.2) (store_best2 st pre c.1 c.2 h)
     simpa using this
+
+/-- **the two slots reported for a donor are the two lowest qualifying energies among the evaluated candidates**, whatever the structure -/
+theorem c14_ks_frame_best_two (n : Nat) (skip proline : Nat → Bool) (caClose : Nat → Nat → Bool) (energy : Nat → Nat → Rat) (donor : Nat) :
+    Best2 (ksFrame n skip proline caClose energy donor)
+      (((ksCandidates n skip caClose).filter (fun da => da.1 == donor && energy da.1 da.2 < -1 / 2 && !proline da.1)).map (fun da => (da.2, energy da.1 da.2))) := by
+  unfold ksFrame
+  have h := c14_store_best_two (((ksCandidates n skip caClose).filter (fun da => da.1 == donor && energy da.1 da.2 < -1 / 2 && !proline da.1)).map (fun da => (da.2, energy da.1 da.2)))
+  rw [List.foldl_map] at h
+  exact h
+
+/-- a proline never donates, and nothing above −0.5 kcal/mol is stored -/
+theorem c14_ks_frame_proline (n : Nat) (skip proline : Nat → Bool) (caClose : Nat → Nat → Bool) (energy : Nat → Nat → Rat) (donor : Nat) (hp : proline donor = true) :
+    ksFrame n skip proline caClose energy donor = (none, none) := by
+  unfold ksFrame
+  have : (ksCandidates n skip caClose).filter (fun da => da.1 == donor && energy da.1 da.2 < -1 / 2 && !proline da.1) = [] := by
+    apply List.filter_eq_nil_iff.mpr
+    intro da _
+    by_cases hd : da.1 = donor
+    · simp [hd, hp]
+    · simp [hd]
+  rw [this]; rfl
 
 /-- **which residue pairs the kernel evaluates** -/
 theorem c14_candidates_spec (n : Nat) (skip : Nat → Bool) (caClose : Nat → Nat → Bool) (d a : Nat) :
